@@ -96,6 +96,9 @@ func cmdUnit(args []string) {
 				fmt.Printf("  %-5s %-8s %-7s %5dms %s  [%s] %s\n", mark, o.Status, o.Solver, o.Ms, o.Name, o.Pos, o.Desc)
 				if *verbose && o.Status != "unsat" {
 					fmt.Printf("        query: %s\n", o.Query)
+					if o.Status == "sat" && len(o.Tried) > 0 {
+						fmt.Printf("        model: %s\n", modelSummary(o.Tried[len(o.Tried)-1].Output))
+					}
 				}
 			}
 			for _, a := range r.Abstracted {
@@ -119,4 +122,38 @@ func cmdUnits(args []string) {
 			fmt.Printf("%s.%s props=%v mode=%s\n", pkgShort(pk.Path), c.Name, c.Props, c.Mode)
 		}
 	}
+}
+
+// modelSummary extracts the scalar constants of a z3 model that name program variables.
+func modelSummary(out string) string {
+	var parts []string
+	lines := strings.Split(out, "\n")
+	for i := 0; i < len(lines); i++ {
+		ln := strings.TrimSpace(lines[i])
+		if !strings.HasPrefix(ln, "(define-fun ") {
+			continue
+		}
+		f := strings.Fields(ln)
+		if len(f) < 4 || f[2] != "()" {
+			continue
+		}
+		name := f[1]
+		keep := false
+		for _, p := range []string{"h_", "p_", "in_", "m_", "tag!", "c!", "k!", "idx!", "rsize", "rune"} {
+			if strings.HasPrefix(name, p) {
+				keep = true
+			}
+		}
+		if !keep || (f[3] != "Int" && f[3] != "Bool") {
+			continue
+		}
+		val := strings.Join(f[4:], " ")
+		if len(f) == 4 && i+1 < len(lines) {
+			val = strings.TrimSpace(lines[i+1])
+		}
+		val = strings.TrimSuffix(val, ")")
+		parts = append(parts, name+"="+val)
+	}
+	sort.Strings(parts)
+	return strings.Join(parts, " ")
 }
